@@ -103,14 +103,29 @@ def run(ctx: Context) -> None:
                     detail = "idle connection evicted without comparing the idle count with the keep-alive limit"
                 else:
                     counted = cmp.left if "_max_keepalive_connections" in norm(cmp.comparators[0]) else cmp.comparators[0]
-                    limit_side_right = "_max_keepalive_connections" in norm(cmp.comparators[0])
+                    counted_src = counted
+                    stale = None
+                    if isinstance(counted, ast.Name):
+                        # a count kept in a local: it must be (re)computed inside the clean-up loop, after the removals of earlier iterations
+                        nodes_ = cfg.nodes_for(c)
+                        defs_ = ctx.prov.rd(f).defs(counted.id, nodes_[0]) if nodes_ else []
+                        loop_ids = {id(x) for lp in cleanup for x in ast.walk(lp)}
+                        vals = [d.ast.value for d in defs_ if isinstance(d.ast, ast.Assign)]
+                        if len(vals) == len(defs_) == 1:
+                            counted = vals[0]
+                            if id(defs_[0].ast) not in loop_ids:
+                                stale = f"the idle count `{counted_src.id}` is computed once before the clean-up loop and is stale after earlier iterations removed connections"
+                        else:
+                            stale = f"the idle count `{counted_src.id}` has {len(defs_)} definitions (not a fresh count per iteration)"
                     inner = counted.args[0] if isinstance(counted, ast.Call) and norm(counted.func) in ("len", "sum") and counted.args else counted
                     okf, why = _filtered_by(ctx, inner, f, c, "is_idle")
+                    if stale is not None:
+                        okf, why = False, stale
                     if not okf and isinstance(counted, ast.Call) and norm(counted.func) == "sum" and isinstance(inner, (ast.GeneratorExp, ast.ListComp)) \
                             and len(inner.generators) == 1 and norm(inner.generators[0].iter) == "self._connections" \
                             and norm(inner.elt) in (f"{norm(inner.generators[0].target)}.is_idle()", f"int({norm(inner.generators[0].target)}.is_idle())"):
                         okf, why = True, "sum of is_idle() booleans"
-                    tt = {k: peval(cmp, {norm(counted): k, "self._max_keepalive_connections": 2}) for k in (1, 2, 3)}
+                    tt = {k: peval(cmp, {norm(counted_src): k, "self._max_keepalive_connections": 2}) for k in (1, 2, 3)}
                     strict = tt == {1: False, 2: False, 3: True}
                     if okf and strict:
                         reason = "idle surplus"
